@@ -19,7 +19,10 @@ Direction B: TLC counterexamples of the weaker model variants (unchanged code, p
 executed as histories; a systematic family around deletion/re-creation of the path; seeded random
 histories of three kinds (free mix, path churn with a lagging client, bursts of members); a family of
 re-registrations (an instance's node is deleted and a node with EQUAL member data is created under another
-name, inside one listing window or in separate ones).  Events carry the node name `m` and the data id `d`;
+name, inside one listing window or in separate ones); a family in which the whole path goes away while the
+notification worker is between the reads of a fresh listing (the session answers in issue order, so worker and watcher
+advance alternately: it takes a listing of 4-5 members for the path to be reported gone after the first read was answered
+and before the last one is).  Events carry the node name `m` and the data id `d`;
 `d` of a Join/Leave is read from the Member value the callback received, and ZkAbs judges by value.
 All traces (A and B) are judged by ZkAbs through ZkAbsTrace.
 """
@@ -41,7 +44,9 @@ TRACE_CHUNK = 1500
 ASSUMPTIONS = [
   'FakeZK implements the documented ZooKeeper semantics the kazoo recipes rely on: one-shot watches '
   '(get/exists arm a data watch, get_children a child watch; DELETED goes to data watchers then child watchers), '
-  'requests of one session answered in issue order, a request linearised when it is answered',
+  'requests of one session answered in issue order, a request linearised when it is answered (replies and watch events '
+  'reach the client in the order the server produced them, so a reply still on the wire while the tree changes is, for '
+  'the client, the same as the tree changing after the reply was read: no separate in-flight replies)',
   'a watch event is queued on the (real) kazoo callback worker when it fires: delaying it on the wire is equivalent, '
   'for a client that only acts when it reads from its connection, to the tree operation happening later',
   'the session never disconnects or expires (no SUSPENDED/LOST transitions)',
@@ -56,7 +61,11 @@ RULE = {'C19': 'tree histories (create/delete of members, delete/re-create of th
                'steps: TLC counterexamples of weaker designs, every transition of the bounded state graph, TLC-simulated '
                'behaviours, a systematic family (k members cached, members deleted, path deleted and re-created with every '
                'subset, settled or not, under every single-callback raising policy) and seeded random histories (free mix, '
-               'path churn with a lagging client, member bursts) and a re-registration family (node deleted, node with equal data created under another name, 0/1/2 Serve steps or a quiescent point apart); node names may share data values; non-trivial = at least one member created and at least '
+               'path churn with a lagging client, member bursts) and a re-registration family (node deleted, node with equal data created under another name, 0/1/2 Serve steps or a quiescent point apart) and a family of deletions of the whole path in the middle of a listing being read '
+               '(0/1 members announced before, 1-4 (thorough 5) new members created at once, the client stopped after every number of '
+               'Serve steps, all members deleted in ascending/descending order with 0-1 (thorough 2) Serve steps after the p-th '
+               'deletion, the path deleted, served to quiescence, without / with a later re-creation; no callback, every on_leave or '
+               'every on_join raising, thorough also every single one); node names may share data values; non-trivial = at least one member created and at least '
                'one of: path deleted, a member read answered NoNode, a callback raised, a tree operation while requests '
                'are pending; distinct by canonical event list'}
 
@@ -82,12 +91,17 @@ def models(prop, tier):
               what='repaired design: 1 name, history <= 10, path created <= 4x (deep churn of the path)'),
          dict(module='ZkServerSet', cfg='ZkServerSet_d.cfg', env=full,
               what='repaired design: 3 node names carrying 2 data values (an instance registering again under a '
-                   'new node name), history <= 7, path created <= 2x')]
+                   'new node name), history <= 7, path created <= 2x'),
+         dict(module='ZkServerSet', cfg='ZkServerSet_b4.cfg', env=full,
+              what='repaired design: 4 names, history <= 10, path created once (listings of up to 4 members: the '
+                   'path can be reported gone while the worker has read some members of a listing and not yet the rest)')]
   if tier != 'quick':
     out.append(dict(module='ZkServerSet', cfg='ZkServerSet_t2.cfg', env=full, timeout=6000, heap='24g',
                     what='repaired design: 2 names, history <= 13, path created <= 5x, raising policy <= 2'))
     out.append(dict(module='ZkServerSet', cfg='ZkServerSet_t3.cfg', env=full, timeout=6000, heap='24g',
                     what='repaired design: 3 names, history <= 10, path created <= 3x, raising policy <= 1'))
+    out.append(dict(module='ZkServerSet', cfg='ZkServerSet_b4t.cfg', env=full, timeout=6000, heap='16g',
+                    what='repaired design: 4 names, history <= 10, path created once, raising policy <= 1'))
   return out
 
 
@@ -622,6 +636,10 @@ _WEAKER = [
   # "make before break": joins of a listing before its leaves; fails when an instance registers again
   # under a new node name (equal data) within one listing
   (['PD', 'VM', 'DW', 'JBL'], 'ZkServerSet_d.cfg', False),
+  # "nothing to report while no member is announced": the empty listing of a deleted path is queued only when
+  # _members is non-empty; fails when the path is reported gone between the reads of the first members of a listing
+  # (needs a listing of 4 members: worker and watcher advance alternately, the watcher needs 3 round trips)
+  (['PD', 'VM', 'DW', 'LZ'], 'ZkServerSet_b4.cfg', False),
 ]
 
 
@@ -633,7 +651,7 @@ def _counterexample_scripts(tier):
     if thorough_only and tier == 'quick':
       return []
     env = dict(('ZKFIX_' + f, '1') for f in flags)
-    r = tlc.run_tlc('ZkServerSet', cfg, workers=4, timeout=1800, env=env, heap='8g')
+    r = tlc.run_tlc('ZkServerSet', cfg, workers=8 if cfg == 'ZkServerSet_b4.cfg' else 4, timeout=1800, env=env, heap='8g')
     if r.violated != 'NoViolation':
       raise RuntimeError('model variant %s: expected a counterexample to NoViolation, got %r %r\n%s' % (
         flags, r.violated, r.error, r.stdout[-1500:]))
@@ -667,7 +685,8 @@ def cases(prop, tier, seed):
   rng = random.Random(1000003 * int(seed) + 19)
   thorough = tier != 'quick'
   n = 1000 if not thorough else 6000
-  out = list(_counterexample_scripts(tier)) + list(_systematic()) + list(_reregistrations())
+  out = (list(_counterexample_scripts(tier)) + list(_systematic()) + list(_reregistrations())
+         + list(_mid_read_deletions(thorough)))
   for i in range(n):
     if i % 3 == 2:
       out.append(_gen_churn(rng, [1, 2, 2, 3][(i // 3) % 4]))
